@@ -165,15 +165,15 @@ theorem Placed.transfer {t t' : HT} (sg : SameGeom t t') (gm : Geom t) (p : Plac
 
 /-! ### `__cstl_hash_get_bucket`, chain-head insertion, the loop of `cstl_clean_bucket` -/
 
-theorem getBucket_spec (fn : HashId) (k m : Nat) :
+theorem getBucket_spec (fn : HashId) (k : Nat) {m : Nat} (hm : 1 ≤ m) :
     (getBucket hf (some fn) k m).Spec
       (fun tr i => tr = { calls := [⟨fn, k, m⟩] } ∧ i = hf fn k m ∧ i < m) := by
   unfold getBucket
   simp only [bind_def, R.bind, logCall]
   by_cases h : m ≤ hf fn k m
-  · simp [R.Spec, h, stop]
+  · simp [R.Spec, h, stop, hm]
   · simp only [h, if_false]
-    simp [R.Spec, pure_def, R.pure, Tr.append]
+    simp [R.Spec, pure_def, R.pure, Tr.append, hm]
     omega
 
 theorem pushHead_spec {t : HT} {j : Nat} {n : Node} (hj : j < t.bk.size) :
@@ -190,20 +190,21 @@ theorem reinsert_cons (t : HT) (n : Node) (ns : List Node) :
       (getBucket hf t.rhHash n.key t.rhCount >>= fun j => pushHead t j n >>= fun t' => reinsert hf t' ns) := rfl
 
 theorem reinsert_spec (g : HashId) : ∀ (ns : List Node) (t : HT), t.rhHash = some g → t.rhCount ≤ t.bk.size →
+    1 ≤ t.rhCount →
     (reinsert hf t ns).Spec (fun tr t' =>
       SameGeom t t' ∧ (∀ n ∈ ns, hf g n.key t.rhCount < t.rhCount) ∧
       (∀ (j : Nat) (b' : Bucket), t'.bk[j]? = some b' → ∃ b, t.bk[j]? = some b ∧ b'.cst = b.cst ∧
           ∀ n, n ∈ b'.chain ↔ (n ∈ b.chain ∨ (n ∈ ns ∧ hf g n.key t.rhCount = j))) ∧
       List.Perm (nodes t') (ns ++ nodes t) ∧
       tr = { calls := ns.map (fun n => ⟨g, n.key, t.rhCount⟩) })
-  | [], t, _, _ => by
+  | [], t, _, _, _ => by
     simp only [reinsert]
     refine R.Spec.pure ⟨SameGeom.refl t, by simp, ?_, by simp, by simp⟩
     intro j b' hb'
     exact ⟨b', hb', rfl, by simp⟩
-  | n :: ns, t, hg, hle => by
+  | n :: ns, t, hg, hle, hone => by
     rw [reinsert_cons, hg]
-    refine R.Spec.bind (getBucket_spec hf g n.key t.rhCount) ?_
+    refine R.Spec.bind (getBucket_spec hf g n.key hone) ?_
     rintro tr j ⟨rfl, rfl, hlt⟩
     have hj : hf g n.key t.rhCount < t.bk.size := by omega
     refine R.Spec.bind (pushHead_spec hj) ?_
@@ -214,7 +215,7 @@ theorem reinsert_spec (g : HashId) : ∀ (ns : List Node) (t : HT), t.rhHash = s
     have hle1 : (wr t (hf g n.key t.rhCount) { b with chain := n :: b.chain }).rhCount ≤
         (wr t (hf g n.key t.rhCount) { b with chain := n :: b.chain }).bk.size := by
       simpa [wr] using hle
-    refine (reinsert_spec g ns _ hg1 hle1).mono ?_
+    refine (reinsert_spec g ns _ hg1 hle1 hone).mono ?_
     rintro tr2 t2 ⟨sg2, hr2, hp2, hperm2, rfl⟩
     have hrc : (wr t (hf g n.key t.rhCount) { b with chain := n :: b.chain }).rhCount = t.rhCount := by
       simp [wr]
@@ -311,7 +312,7 @@ theorem cleanBucket_spec {t : HT} (inv : Inv hf t) {g : HashId} (hg : t.rhHash =
     have hg1 : (wr t i { b with chain := [] }).rhHash = some g := by simpa [wr] using hg
     have hle1 : (wr t i { b with chain := [] }).rhCount ≤ (wr t i { b with chain := [] }).bk.size := by
       simpa [wr] using hle
-    refine R.Spec.bind (reinsert_spec hf g b.chain _ hg1 hle1) ?_
+    refine R.Spec.bind (reinsert_spec hf g b.chain _ hg1 hle1 (inv.pend (by simp [hg])).2.1) ?_
     rintro tr1 t2 ⟨sg2, hr2, hp2, hperm2, rfl⟩
     refine R.Spec.bind tickReloc_spec ?_
     rintro tr2 _ rfl
@@ -550,12 +551,13 @@ structure SweepRes (t t' : HT) (n : Option Nat) (d : Nat) (tr : Tr) : Prop where
   progress : t.clean < t.count → n ≠ some 0 → 0 < d → t.clean + 1 ≤ t'.clean
   complete : n = none → t.count - t.clean ≤ d → t'.count ≤ t'.clean
   le_count : t.clean ≤ t.count → t'.clean ≤ t'.count
+  calls : ∀ c ∈ tr.calls, c.m = t.rhCount
 
 theorem sweep_spec : ∀ (d : Nat) (t : HT) (n : Option Nat), Inv hf t → t.rhHash.isSome →
     (sweep hf t n d).Spec (fun tr t' => SweepRes hf t t' n d tr)
   | 0, t, n, inv, _ => by
     refine R.Spec.pure ⟨SweepStep.refl hf inv, by simp, by simp, fun k _ => by omega, fun _ _ h => by omega,
-      fun _ h => by omega, fun h => h⟩
+      fun _ h => by omega, fun h => h, by simp⟩
   | d + 1, t, n, inv, hp => by
     rw [sweep_succ]
     by_cases hc : t.clean < t.count ∧ n ≠ some 0
@@ -573,7 +575,7 @@ theorem sweep_spec : ∀ (d : Nat) (t : HT) (n : Option Nat), Inv hf t → t.rhH
       have hcn1 : t1.count = t.count := cs.same.1
       have hr := r.reloc; have hs := r.step.clean_ge
       simp only at hr hs
-      refine ⟨st1.trans hf r.step, ?_, ?_, ?_, ?_, ?_, ?_⟩
+      refine ⟨st1.trans hf r.step, ?_, ?_, ?_, ?_, ?_, ?_, ?_⟩
       · have := cs.reloc_le
         simp only [Tr.append_reloc]
         omega
@@ -592,8 +594,15 @@ theorem sweep_spec : ∀ (d : Nat) (t : HT) (n : Option Nat), Inv hf t → t.rhH
       · intro _
         have := r.le_count (by simp only; omega)
         exact this
+      · intro c hc'
+        simp only [Tr.append_calls, List.mem_append] at hc'
+        rcases hc' with h | h
+        · exact (cs.calls c h).2
+        · have := r.calls c h
+          simp only at this
+          rw [this]; exact cs.same.2.2.2.2.1
     · rw [if_neg hc]
-      refine R.Spec.pure ⟨SweepStep.refl hf inv, by simp, by simp, fun k _ => by omega, ?_, ?_, fun h => h⟩
+      refine R.Spec.pure ⟨SweepStep.refl hf inv, by simp, by simp, fun k _ => by omega, ?_, ?_, fun h => h, by simp⟩
       · intro h1 h2 _; exact absurd ⟨h1, h2⟩ hc
       · intro hn _
         subst hn
@@ -615,6 +624,7 @@ structure RehashRes (t t' : HT) (n : Option Nat) (tr : Tr) : Prop where
   perm : List.Perm (nodes t') (nodes t)
   evs : tr.evs = []
   reloc : ∀ k, n = some k → tr.reloc ≤ k
+  calls : ∀ c ∈ tr.calls, c.m = t.rhCount
   outcome :
     (t'.rhHash = t.rhHash ∧ t'.count = t.count ∧ t'.hash = t.hash ∧ t'.rhCount = t.rhCount ∧
       t'.clean < t'.count ∧ t.clean ≤ t'.clean ∧ (n ≠ some 0 → t.clean + 1 ≤ t'.clean) ∧ n ≠ none ∧
@@ -632,10 +642,15 @@ theorem rehashN_spec {t : HT} (n : Option Nat) (inv : Inv hf t) (hp : t.rhHash.i
   have st := st1.trans hf r.step
   have hle1 : t1.clean ≤ t1.count := (st1.inv.pend hp1).2.2.2
   have hle2 := r.le_count hle1
+  have hcalls : ∀ c ∈ (Tr.append (Tr.append {} tr2) {}).calls, c.m = t.rhCount := by
+    intro c hc'
+    simp only [Tr.append_calls, Tr.empty_calls, List.nil_append, List.append_nil] at hc'
+    rw [r.calls c hc', st1.rhCount]
   by_cases hc : t2.count ≤ t2.clean
   · rw [if_pos hc]
     obtain ⟨g, hg⟩ := Option.isSome_iff_exists.mp (show t2.rhHash.isSome by rw [st.rhHash]; exact hp)
-    refine R.Spec.pure ⟨st.inv.adopt hf hg hc, st.bksz, st.cst, st.size, ?_, by simp [r.evs], ?_, Or.inr ⟨rfl, ?_, ?_⟩⟩
+    refine R.Spec.pure ⟨st.inv.adopt hf hg hc, st.bksz, st.cst, st.size, ?_, by simp [r.evs], ?_, hcalls,
+      Or.inr ⟨rfl, ?_, ?_⟩⟩
     · exact st.perm
     · intro k hk
       have := r.bounded k hk
@@ -644,7 +659,7 @@ theorem rehashN_spec {t : HT} (n : Option Nat) (inv : Inv hf t) (hp : t.rhHash.i
     · simp [st.rhCount]
     · simp [st.rhHash]
   · rw [if_neg hc]
-    refine R.Spec.pure ⟨st.inv, st.bksz, st.cst, st.size, st.perm, by simp [r.evs], ?_,
+    refine R.Spec.pure ⟨st.inv, st.bksz, st.cst, st.size, st.perm, by simp [r.evs], ?_, hcalls,
       Or.inl ⟨st.rhHash, st.count, st.hash, st.rhCount, by omega, st.clean_ge, ?_, ?_, st.mono⟩⟩
     · intro k hk
       have := r.bounded k hk
@@ -663,7 +678,8 @@ theorem rehashN_spec {t : HT} (n : Option Nat) (inv : Inv hf t) (hp : t.rhHash.i
 theorem rehash_spec {t : HT} (inv : Inv hf t) :
     (rehash hf t).Spec (fun tr t' => Inv hf t' ∧ t'.rhHash = none ∧ t'.bk.size = t.bk.size ∧ t'.cst = t.cst ∧
       t'.size = t.size ∧ List.Perm (nodes t') (nodes t) ∧ tr.evs = [] ∧
-      t'.count = t.effCount ∧ t'.hash = t.effHash ∧ (t.rhHash = none → t' = t ∧ tr = {})) := by
+      t'.count = t.effCount ∧ t'.hash = t.effHash ∧ (t.rhHash = none → t' = t ∧ tr = {}) ∧
+      (∀ c ∈ tr.calls, c.m = t.rhCount)) := by
   unfold rehash
   by_cases hp : t.rhHash.isSome
   · rw [if_pos hp]
@@ -671,14 +687,14 @@ theorem rehash_spec {t : HT} (inv : Inv hf t) :
     intro tr t' r
     rcases r.outcome with h | h
     · exact absurd rfl h.2.2.2.2.2.2.2.1
-    · refine ⟨r.inv, h.1, r.bksz, r.cst, r.size, r.perm, r.evs, ?_, ?_, ?_⟩
+    · refine ⟨r.inv, h.1, r.bksz, r.cst, r.size, r.perm, r.evs, ?_, ?_, ?_, r.calls⟩
       · simp [HT.effCount, hp, h.2.1]
       · simp [HT.effHash, hp, h.2.2]
       · intro hn; simp [hn] at hp
   · rw [if_neg hp]
     have hn : t.rhHash = none := by simpa using hp
     exact R.Spec.pure ⟨inv, hn, rfl, rfl, rfl, List.Perm.refl _, rfl, by simp [HT.effCount, hn],
-      by simp [HT.effHash, hn], fun _ => ⟨rfl, rfl⟩⟩
+      by simp [HT.effHash, hn], fun _ => ⟨rfl, rfl⟩, by simp⟩
 
 /-! ### `cstl_hash_get_bucket` -/
 
@@ -704,6 +720,7 @@ structure KeyedRes (t : HT) (k : Nat) (t' : HT) (j : Nat) (tr : Tr) : Prop where
   effCount : t'.effCount = t.effCount
   effHash : t'.effHash = t.effHash
   ready : t'.hash.isSome
+  pos : ∀ c ∈ tr.calls, 1 ≤ c.m
   settled_case : t.rhHash = none → t' = t ∧ ∃ h, t.hash = some h ∧ tr = { calls := [⟨h, k, t.count⟩] }
   pending_case : t.rhHash.isSome →
     (t'.rhHash = none ∧ t'.count = t.rhCount ∧ t'.hash = t.rhHash) ∨
@@ -713,14 +730,14 @@ structure KeyedRes (t : HT) (k : Nat) (t' : HT) (j : Nat) (tr : Tr) : Prop where
 theorem keyed_spec {t : HT} (k : Nat) (inv : Inv hf t) {h : HashId} (hh : t.hash = some h) :
     (keyed hf t k).Spec (fun tr r => KeyedRes hf t k r.1 r.2 tr) := by
   rw [keyed_unfold, hh]
-  refine R.Spec.bind (getBucket_spec hf h k t.count) ?_
+  refine R.Spec.bind (getBucket_spec hf h k (inv.ready (by simp [hh]))) ?_
   rintro tr0 i ⟨rfl, rfl, hilt⟩
   have hisz : hf h k t.count < t.bk.size := Nat.lt_of_lt_of_le hilt inv.cnt_le
   by_cases hp : t.rhHash.isSome
   · rw [if_pos hp]
     obtain ⟨g, hg⟩ := Option.isSome_iff_exists.mp hp
     rw [hg]
-    refine R.Spec.bind (getBucket_spec hf g k t.rhCount) ?_
+    refine R.Spec.bind (getBucket_spec hf g k (inv.pend hp).2.1) ?_
     rintro tr1 j ⟨rfl, rfl, hjlt⟩
     have hpend := inv.pend hp
     have hjsz : hf g k t.rhCount < t.bk.size := Nat.lt_of_lt_of_le hjlt hpend.2.2.1
@@ -746,7 +763,7 @@ theorem keyed_spec {t : HT} (k : Nat) (inv : Inv hf t) {h : HashId} (hh : t.hash
       · rw [h', hc1]
       · rw [h', a3]
     refine ⟨r.inv, hsz3, by rw [r.cst, b3, a3], by rw [r.size, b7, a7], (r.perm.trans c2.perm).trans c1.perm,
-      ?_, ?_, by rw [hsz3]; exact hjsz, ?_, ?_, ?_, ?_, ?_, ?_, ?_⟩
+      ?_, ?_, by rw [hsz3]; exact hjsz, ?_, ?_, ?_, ?_, ?_, ?_, ?_, ?_⟩
     · simp [c1.evs, c2.evs, r.evs]
     · have := c1.reloc_le; have := c2.reloc_le; have := r.reloc 1 rfl
       simp; omega
@@ -786,6 +803,16 @@ theorem keyed_spec {t : HT} (k : Nat) (inv : Inv hf t) {h : HashId} (hh : t.hash
     · rcases r.outcome with o | o
       · rw [o.2.2.1, b2, a2, hh]; rfl
       · rw [o.2.2, b4, a4, hg]; rfl
+    · intro c hc
+      simp only [Tr.append_calls, Tr.empty_calls, List.append_nil, List.mem_append, List.mem_cons,
+        List.not_mem_nil, or_false] at hc
+      have h1 : 1 ≤ t.rhCount := hpend.2.1
+      rcases hc with rfl | rfl | h' | h' | h'
+      · show 1 ≤ t.count; omega
+      · exact h1
+      · rw [(c1.calls c h').2]; exact h1
+      · rw [(c2.calls c h').2, a5]; exact h1
+      · rw [r.calls c h', b5, a5]; exact h1
     · intro hn; simp [hn] at hp
     · intro _
       rcases r.outcome with o | o
@@ -798,7 +825,7 @@ theorem keyed_spec {t : HT} (k : Nat) (inv : Inv hf t) {h : HashId} (hh : t.hash
   · rw [if_neg hp]
     have hn : t.rhHash = none := by simpa using hp
     refine R.Spec.pure ?_
-    refine ⟨inv, rfl, rfl, rfl, List.Perm.refl _, by simp, by simp, hisz, ?_, ?_, rfl, rfl, by simp [hh], ?_, ?_⟩
+    refine ⟨inv, rfl, rfl, rfl, List.Perm.refl _, by simp, by simp, hisz, ?_, ?_, rfl, rfl, by simp [hh], ?_, ?_, ?_⟩
     · intro e
       refine ⟨fun _ h' hh' => ?_, fun g hg => ?_⟩
       · rw [hh] at hh'; cases hh'; exact ⟨hilt, rfl⟩
@@ -806,6 +833,10 @@ theorem keyed_spec {t : HT} (k : Nat) (inv : Inv hf t) {h : HashId} (hh : t.hash
     · intro i b n hb hnn hk
       have := (inv.settled hn h hh i b hb).2 n hnn
       rw [hk] at this; exact this.symm
+    · intro c hc
+      simp only [Tr.append_calls, Tr.empty_calls, List.append_nil, List.mem_cons, List.not_mem_nil, or_false] at hc
+      subst hc
+      show 1 ≤ t.count; omega
     · intro _; exact ⟨rfl, h, hh, by simp⟩
     · intro hp'; exact absurd hp' hp
 
